@@ -392,8 +392,17 @@ func runWorker(chk *Check, env *Env, outPath, journalPath string, resumeAfter, o
 	}
 	cur.idx = -1
 	go func() {
+		lastTick := time.Now()
 		for {
 			time.Sleep(500 * time.Millisecond)
+			// a tick that comes much later than asked for means the whole process did not run (VM
+			// snapshot, machine starved): that time is not charged to the case
+			if gap := time.Since(lastTick); gap > 3*time.Second {
+				cur.Lock()
+				cur.start = cur.start.Add(gap)
+				cur.Unlock()
+			}
+			lastTick = time.Now()
 			cur.Lock()
 			idx, st := cur.idx, cur.start
 			cur.Unlock()
@@ -646,10 +655,16 @@ func lastJournal(path string) (idx int, ekey, edesc string, hang bool) {
 		l := sc.Text()
 		switch {
 		case strings.HasPrefix(l, "C "):
+			if hang {
+				continue // the watchdog has fired; the main goroutine ran on until os.Exit
+			}
 			idx, _ = strconv.Atoi(l[2:])
-			ekey, edesc, hang = "", "", false
+			ekey, edesc = "", ""
 		case strings.HasPrefix(l, "H "):
 			hang = true
+			if n, err := strconv.Atoi(strings.TrimSpace(l[2:])); err == nil {
+				idx = n
+			}
 		case strings.HasPrefix(l, "E "):
 			rest := l[2:]
 			if k, err := strconv.QuotedPrefix(rest); err == nil {
